@@ -172,3 +172,92 @@ fn c11_derived_set_b() {
 fn c11_derived_group() {
     body::<Grp<'_>, 8>(&NAMES_G);
 }
+
+// ----------------------------------------------------------------------------- Cli level
+use crate::cli_common::*;
+use crate::cli_steps::*;
+use crate::sinks::CountSink;
+use embedded_cli::__verif::ControlInput;
+use embedded_cli::command::RawCommand as Raw;
+
+/// commands that share a longer prefix with each other than with the built-in `help`
+#[derive(Command)]
+pub enum SetH {
+    Heat,
+    Exit,
+    Heap,
+}
+pub const NAMES_H: [&str; 4] = ["heat", "exit", "heap", "help"];
+
+/// Tab through the Cli with a derived command set: the line is one word (no blanks,
+/// cursor at its end); the result is the word + the common continuation of all user
+/// commands AND the built-in `help` (+ blank iff exactly one name and room).
+#[kani::proof]
+#[kani::unwind(10)]
+fn c11_cli_tab_with_help() {
+    let pre = any_pre();
+    kani::assume(pre.valid >= 1 && pre.valid <= WL && pre.cursor == pre.count);
+    let mut i = 0;
+    while i < N {
+        kani::assume(i >= pre.valid || pre.ebuf[i] != b' ');
+        i += 1;
+    }
+    let mut w = [0u8; WL];
+    let mut i = 0;
+    while i < WL {
+        if i < pre.valid && i < N {
+            w[i] = pre.ebuf[i];
+        }
+        i += 1;
+    }
+    let free = N - pre.valid;
+    let (count, lcc, first, tight) = reference::<4>(&NAMES_H, &w, pre.valid, free);
+    let mut cli = build(&pre, CountSink::new());
+    let mut calls = 0usize;
+    let r = {
+        let mut p = Raw::processor(|_h: &mut embedded_cli::cli::CliHandle<'_, CountSink, core::convert::Infallible>, _c: Raw<'_>| {
+            calls += 1;
+            Ok(())
+        });
+        cli.__verif_on_control::<SetH, _>(ControlInput::Tab, &mut p)
+    };
+    assert!(r.is_ok() && calls == 0);
+    let p = post(&cli);
+    assert!(post_inv(&p));
+    // typed text is never altered
+    let mut i = 0;
+    while i < N {
+        if i < pre.valid {
+            assert!(i < p.valid && p.ebuf[i] == pre.ebuf[i], "C11: typed characters are kept");
+        }
+        i += 1;
+    }
+    if count == 0 {
+        assert!(line_eq(&p, &line_of(&pre)), "C11: nothing matches, line unchanged");
+    } else {
+        let fb = NAMES_H[if first < 4 { first } else { 0 }].as_bytes();
+        let added = p.valid - pre.valid;
+        let blank = added > 0 && p.ebuf[p.valid - 1] == b' ';
+        let cont = if blank { added - 1 } else { added };
+        assert!(cont <= lcc, "C11: not beyond the common continuation of all names incl. help");
+        let mut i = 0;
+        while i < NAMELEN {
+            if i < cont {
+                assert!(p.ebuf[pre.valid + i] == fb[pre.valid + i], "C11: continuation bytes");
+            }
+            i += 1;
+        }
+        if !tight {
+            assert!(cont == lcc, "C11: the whole common continuation");
+            assert!(blank == (count == 1 && pre.valid + lcc < N), "C11: blank iff exactly one name matches and there is room");
+        } else {
+            assert!(!blank || count == 1, "C11: no blank when several names match");
+        }
+        assert!(p.cursor == scalar_count(&p.ebuf, p.valid));
+    }
+    assert!(cli.__verif_writer().pending == 0, "C15: flushed");
+    kani::cover!(count == 3 && !tight, "h: two user commands and help");
+    kani::cover!(count == 2 && !tight, "hea: two user commands");
+    kani::cover!(count == 1 && !tight, "unique");
+    kani::cover!(count == 0);
+}
